@@ -474,15 +474,25 @@ def run_batches(d, cases_path, ncases, v, batch=400, workers=4):
     killing case is re-run alone once, recorded as a Crash / Timeout event, and the batch goes on."""
     drv = os.path.join(vlib.BUILD_DIR, "rundrv")
     ranges = [(a, min(a + batch, ncases)) for a in range(0, ncases, batch)]
+    stopped = []
 
     def child(a, b, out, careful=False):
         cmd = [drv, "run", "-cases", cases_path, "-from", str(a), "-to", str(b), "-out", out] + (["-careful"] if careful else [])
-        return vlib.run(cmd, timeout=1800, check=False)
+        # every third batch runs on ONE processor (GOMAXPROCS=1, as in a one-CPU container): fan-outs bounded by the
+        # number of processors then have a single slot
+        env = dict(os.environ, GOMAXPROCS="1") if (a // batch) % 3 == 2 else None
+        return vlib.run(cmd, timeout=1800, check=False, env=env)
+
+    hung = {"n": 0}    # confirmed Timeout events so far (all batches): after five the verdict is settled, and every
+                       # further hanging case costs two watchdog periods
 
     def one(idx):
         a, b = ranges[idx]
         lines, crashes = [], 0
         while a < b:
+            if hung["n"] >= 5:
+                stopped.append((a, b))
+                break
             out = os.path.join(d, "run-%d-%d.ndjson" % (idx, a))
             p = child(a, b, out)
             got = nd_lines(out) if os.path.exists(out) else []
@@ -497,6 +507,8 @@ def run_batches(d, cases_path, ncases, v, batch=400, workers=4):
                 p2 = child(last, last + 1, out2)
                 if p2.returncode != 9:
                     lines[-1:] = nd_lines(out2)
+                else:
+                    hung["n"] += 1
                 a = last + 1
                 continue
             killer = last + 1
@@ -525,6 +537,8 @@ def run_batches(d, cases_path, ncases, v, batch=400, workers=4):
 
     with cf.ThreadPoolExecutor(max_workers=workers) as ex:
         parts = list(ex.map(one, range(len(ranges))))
+    if stopped:
+        v.notes.append("stopped after five statements that did not return within the watchdog: %d cases not executed" % sum(b - a for a, b in stopped))
     trace = os.path.join(d, "run.ndjson")
     with open(trace, "w") as fh:
         for part in parts:
@@ -606,7 +620,7 @@ def check_c08_body(v, d, quick, fpipe):
     trace = run_batches(d, cases, ncases, v, batch=400 if quick else 1000, workers=4 if quick else 10)
     res = validate("RunTrace", gen, trace, per_chunk=15000)
     evs = vlib.read_ndjson(trace)
-    if len(evs) != ncases:
+    if len(evs) != ncases and not any("did not return within the watchdog" in n for n in v.notes):
         raise Infra("%d events for %d cases" % (len(evs), ncases))
     by = {}
     for e in evs:
